@@ -22,6 +22,9 @@ type spec struct {
 	N       int    // messages emitted by the subscriber
 	Closers int
 	Gated   bool // the subscriber starts emitting only after Running() (else immediately)
+	// Ends: the handler's subscription ends before / while Close is called: "stop" = Handler.Stop() runs concurrently
+	// with the closers, "subends" = the subscriber closes its channel right after handing out its last message
+	Ends string
 	C       int
 	DPORSec float64
 }
@@ -30,6 +33,9 @@ func (s spec) name() string {
 	g := ""
 	if s.Gated {
 		g = "/gated"
+	}
+	if s.Ends != "" {
+		g += "/" + s.Ends
 	}
 	return fmt.Sprintf("script/%s/N%d/closers%d%s", s.Handler, s.N, s.Closers, g)
 }
@@ -61,6 +67,9 @@ func body(sp spec) {
 	if sp.Gated {
 		sub.Gate = make(chan struct{})
 	}
+	if sp.Ends == "subends" {
+		sub.InFlight, sub.EndAfterScript = true, true
+	}
 	pub := hx.NewScriptPub("pub")
 	r, err := message.NewRouter(message.RouterConfig{CloseTimeout: closeTimeout}, nil)
 	if err != nil {
@@ -68,7 +77,7 @@ func body(sp spec) {
 		return
 	}
 	never := make(chan struct{})
-	r.AddHandler("h", "in", sub, "out", pub, func(m *message.Message) ([]*message.Message, error) {
+	hnd := r.AddHandler("h", "in", sub, "out", pub, func(m *message.Message) ([]*message.Message, error) {
 		vs.Observe("start %s", m.UUID)
 		switch sp.Handler {
 		case "yield":
@@ -98,6 +107,13 @@ func body(sp spec) {
 		sub.Open()
 	}
 	var wg vs.WaitGroup
+	if sp.Ends == "stop" {
+		wg.Add(1)
+		go func() {
+			defer wg.Done()
+			hnd.Stop()
+		}()
+	}
 	for i := 0; i < sp.Closers; i++ {
 		i := i
 		wg.Add(1)
@@ -198,7 +214,9 @@ func checkLog(sp spec, obs []string) []vs.Failure {
 			if runs != 1 {
 				fail("run-returns", "Run did not return after Close")
 			}
-			if strings.Contains(o, "subClose=0") {
+			// (a handler that was stopped, or whose subscription ended, is no longer one of the router's handlers when
+			// Close runs: the router leaves its subscriber alone, and the clause does not apply)
+			if strings.Contains(o, "subClose=0") && sp.Ends == "" {
 				fail("closes-subscriber", "Router.Close on a running router never called the handler's subscriber Close()")
 			}
 			if strings.Contains(o, "pubClose=0") {
@@ -312,6 +330,17 @@ func init() {
 		add(reg.Thorough, 40, spec{Handler: h, N: 2, Closers: 1, C: 1}, 2, 0)
 	}
 	add(reg.Quick, 10, spec{Handler: "yield", N: 1, Closers: 1, Gated: true, C: 1}, 2, 0)
+	// the only handler's subscription ends while its invocation runs: the router then closes itself, and a Close
+	// call that returns nil still means that no invocation is in progress
+	for _, ends := range []string{"stop", "subends"} {
+		for _, h := range []string{"yield", "short", "blocked"} {
+			c := 1
+			if ends == "stop" { // one more actor: one preemption in thorough only
+				c = 0
+			}
+			add(reg.Quick, 10, spec{Handler: h, N: 1, Closers: 1, Ends: ends, C: c}, c+1, 0)
+		}
+	}
 	// invocations that end with a panic or an error are settled (Nack) before Close returns nil, too
 	add(reg.Quick, 10, spec{Handler: "panic", N: 1, Closers: 1, C: 1}, 2, 0)
 	add(reg.Thorough, 10, spec{Handler: "error", N: 1, Closers: 1, C: 1}, 2, 0)
